@@ -164,10 +164,11 @@ theorem smooth_net_wrench_zero (sqrt tanh : K → K) (pow : K → K → K) (P : 
   exact pair_at_point_net_zero _ _ h1 h2 _ _
 
 omit [LinearOrder K] [IsStrictOrderedRing K] in
-/-- **CompliantContactSubsystem** (Hertz, brick, elastic-foundation generators alike): a contact force given at a
-contact point is shifted to the two body origins with opposite signs — zero net wrench for any poses -/
-theorem compliant_net_wrench_zero (cp f : V3 K) (X1 X2 : Pose K) :
-    netWrench2 (compliantApply cp f X1 X2) X1 X2 = SpF.zero := by
+/-- **CompliantContactSubsystem** (every generator: Hertz with `m = 0`, elastic foundation and brick with the resultant
+moment `m` about the contact point): the spatial contact force `(m, f)` given at the contact point is shifted to the two
+body origins with opposite signs (`realizeSubsystemDynamicsImpl`) — zero net wrench for any poses -/
+theorem compliant_net_wrench_zero (cp m f : V3 K) (X1 X2 : Pose K) :
+    netWrench2 (compliantApply cp m f X1 X2) X1 X2 = SpF.zero := by
   simp only [netWrench2, compliantApply, SpF.add, SpF.aboutGround, SpF.zero]
   apply SpF.ext' <;> apply V3.ext' <;> simp [cross] <;> ring
 
